@@ -27,7 +27,7 @@ var (
 	verifCrashName string
 	verifCrashN    int64
 	verifCrashHits int64
-	verifProcessed sync.Map // table name -> *int64
+	verifProcessed sync.Map // *table -> *int64
 	verifLogFile   *os.File
 )
 
@@ -60,10 +60,6 @@ func VerifSetSink(sink func(name string, table string, args []interface{})) {
 }
 
 func verifEvent(name string, table string, args ...interface{}) {
-	if name == "insert.processed" {
-		c, _ := verifProcessed.LoadOrStore(table, new(int64))
-		atomic.AddInt64(c.(*int64), 1)
-	}
 	verifMx.Lock()
 	sink := verifSink
 	if verifLogFile != nil {
@@ -84,22 +80,33 @@ func verifEvent(name string, table string, args ...interface{}) {
 	}
 }
 
-// VerifProcessed returns how many WAL entries the named table has processed
-// (inserted or skipped) since this process started.
+// verifCountProcessed counts one WAL entry processed (inserted or skipped) by a table.
+func verifCountProcessed(t *table) {
+	c, _ := verifProcessed.LoadOrStore(t, new(int64))
+	atomic.AddInt64(c.(*int64), 1)
+}
+
+// VerifProcessed returns how many WAL entries the named table of this DB has
+// processed (inserted or skipped) since it was created in this process.
 func (db *DB) VerifProcessed(table string) int64 {
-	c, ok := verifProcessed.Load(strings.ToLower(table))
+	t := db.getTable(table)
+	if t == nil {
+		return 0
+	}
+	c, ok := verifProcessed.Load(t)
 	if !ok {
 		return 0
 	}
 	return atomic.LoadInt64(c.(*int64))
 }
 
-// VerifResetProcessed clears the processed counters (between harness cases).
-func VerifResetProcessed() {
-	verifProcessed.Range(func(k, v interface{}) bool {
-		verifProcessed.Delete(k)
-		return true
-	})
+// VerifForget drops the counters of this DB's tables (call after Close).
+func (db *DB) VerifForget() {
+	db.tablesMutex.RLock()
+	for _, t := range db.tables {
+		verifProcessed.Delete(t)
+	}
+	db.tablesMutex.RUnlock()
 }
 
 // VerifFields returns the current fields of the named table.
